@@ -656,8 +656,30 @@ func BuildDoc(r *kit.Rand, cfg DocConfig) (*Doc, error) {
 			if r.Chance(1, 12) {
 				dict = nil
 			}
+			// Sometimes the data comes hex-encoded already: the dictionary names
+			// that filter itself, in an array that has spare capacity behind its
+			// end (which belongs to the caller, too), and the Writer adds its own.
+			var backing pdf.Array
+			preEncoded := false
+			if dict != nil && !cfg.NoFilters && !cfg.EndstreamBodies && unit == 1 && r.Chance(1, 10) {
+				if _, has := dict["Length"]; !has {
+					backing = pdf.Array{pdf.Name("ASCIIHexDecode"), pdf.Name("VerifSpare1"), pdf.Name("VerifSpare2"), pdf.Name("VerifSpare3"), pdf.Name("VerifSpare4")}
+					dict["Filter"] = backing[:1]
+					preEncoded = true
+					// The Writer appends its own filters behind the ones the dictionary
+					// names, i.e. it treats those as the outermost encoding - which it
+					// applies last of all.  With ASCIIHex on both sides the order does
+					// not matter: hex(hex(body)) is read back as body.
+					filters = []pdf.Filter{pdf.FilterASCIIHex{}}
+					names = []string{"AHx(named in the dictionary)", "AHx"}
+				}
+			}
 			arg := shared{val: dict, snap: Clone(dict)}
 			bodySnap := bytes.Clone(body)
+			if preEncoded {
+				body = kit.XCHexEncode(body, r)
+			}
+			toWrite := bytes.Clone(body)
 			s, err := w.OpenStream(ref, dict, filters...)
 			if err != nil {
 				return d, fmt.Errorf("%s: OpenStream(%v): %w", cfg.String(), names, err)
@@ -709,7 +731,16 @@ func BuildDoc(r *kit.Rand, cfg DocConfig) (*Doc, error) {
 				return d, fmt.Errorf("%s: stream Close (filters %v, %d bytes): %w", cfg.String(), names, len(body), err)
 			}
 			checkArgs("OpenStream", append(dargs, arg)...)
-			if !bytes.Equal(body, bodySnap) {
+			if preEncoded {
+				for i, want := range []string{"ASCIIHexDecode", "VerifSpare1", "VerifSpare2", "VerifSpare3", "VerifSpare4"} {
+					if backing[i] != pdf.Name(want) {
+						d.Problems = append(d.Problems, Problem{"argument-modified/filter-array-behind-its-end/" + cfg.CipherLabel(),
+							fmt.Sprintf("%s: OpenStream with /Filter %v (a slice of a longer array) and filters %v changed element %d of the caller's array to %v", cfg.String(), backing[:1], names, i, backing[i])})
+						break
+					}
+				}
+			}
+			if !bytes.Equal(body, toWrite) {
 				d.Problems = append(d.Problems, Problem{"argument-modified/stream-data/" + cfg.CipherLabel(),
 					fmt.Sprintf("%s: the bytes passed to the stream's Write were modified (filters %v, %d bytes)", cfg.String(), names, len(body))})
 			}
